@@ -4,8 +4,9 @@ def run(tier):
     c = Check("C22", tier)
     q = tier == "quick"
     f = [os.path.join(VERIF, "harness/tlast/zz_verif_c22.go")]
-    params = {"maxnum": 99, "skel": -1} if q else {"maxnum": 0, "skel": -1}
-    c.run_pkg(REPO, "./internal/tlast", os.path.join(REPO, "internal/tlast"), "tlast", f, "^VerifC22Format$", params=params, max_models=10 if q else 40, wall="60s" if q else "900s", soft_trunc="record")
+    params = {"maxnum": 99, "skel": -1, "cmtN": 1} if q else {"maxnum": 0, "skel": -1, "cmtN": 2}
+    c.run_pkg(REPO, "./internal/tlast", os.path.join(REPO, "internal/tlast"), "tlast", f, "^VerifC22(Format|Comments)$", params=params, max_models=10 if q else 40, wall="60s" if q else "900s", soft_trunc="record")
     c.assumptions += ["TL2 skeleton files (harness/tlast/zz_verif_c22.go) with EVERY number symbolic: explicit magics (all non-zero 32-bit values), array sizes and numeric template arguments (<= maxnum when maxnum > 0); default and canonical format options",
+                      "comments: symbolic content (every byte but line breaks, <= cmtN bytes per line) of one- and two-line comments before combinators, union variants, variant/struct fields, function arguments and to the right of fields, parsed by the real lexer",
                       "same declarations = equal canonical print of original and re-parsed file plus names/magics/arity compared directly"]
-    return c.finish(bounds=params, outside=["files other than the skeletons", "symbolic identifier names and comments"])
+    return c.finish(bounds=params, outside=["files other than the skeletons", "symbolic identifier names", "comment lines longer than cmtN bytes"])
